@@ -49,6 +49,11 @@ def _design(cfg, consts, name, tlc_workers, dump=None, spec=None, props=True):
     return r, d
 
 
+def _design_spur(cfg):
+    d, mod, cfgf = mtlib.write_model(cfg["base"], cfg["consts"], spec="SpecSpur", invariants=cfg["inv"])
+    return core.run_tlc(mod, cfgf, workers=3, timeout=900, cwd=d, coverage=False)
+
+
 def run_plan(ctx, props, plan, quick, extra_random=None):
     run = mtcommon.MtRun(ctx, props)
     seed = ctx.seed
@@ -79,6 +84,14 @@ def run_plan(ctx, props, plan, quick, extra_random=None):
             s = make_scn(c, "cex-" + c["name"], {"kind": "guided", "steps": steps})
             scns.append(s)
             meta.append(("tlc-cex", c))
+    if not quick:
+        # safety with spurious condvar wake-ups (model only)
+        futs2 = [(c, pool.submit(_design_spur, c)) for c in plan if c["design"].ok and c["design"].distinct < 150000]
+        for c, f in futs2:
+            r = f.result()
+            ctx.note_tlc("design+spurious " + c["name"], r)
+            if not r.ok:
+                raise ToolError(f"safety of the as-built design {c['name']} depends on the absence of spurious wake-ups: {r.violated}")
     log(f"[stage1] {len(plan)} design configurations model-checked in {time.time()-t0:.1f}s")
 
     # ---------------- stage 2a: tours of the as-built graphs
@@ -142,6 +155,13 @@ def run_plan(ctx, props, plan, quick, extra_random=None):
         for i in range(npct):
             scns.append(make_scn(c, f"pct-{c['name']}-{i}", {"kind": "pct", "seed": rnd.getrandbits(40), "depth": 1 + i % 4}))
             meta.append(("pct", c))
+    # thorough: stateless bounded-preemption DFS over the real code's schedules for the configurations marked "dfs"
+    for c in plan:
+        if not quick and (c["mode"] in ("tour", "fulltour") or c.get("dfs")):
+            t1 = time.time()
+            n, left = dfs_explore(run, c, 2, 12000)
+            ctx.add("dfs_executions", n)
+            log(f"[dfs] {c['name']}: {n} executions (pre-emption bound 2, {left} prefixes left unexplored) in {time.time()-t1:.1f}s")
     t0 = time.time()
     results = mtlib.run_scenarios(scns)
     log(f"[impl] {len(scns)} executions of the real code on the deterministic runtime in {time.time()-t0:.1f}s")
@@ -210,6 +230,39 @@ def run_plan(ctx, props, plan, quick, extra_random=None):
         "work units are tiny real streams (a few hundred bytes) so that workers run the real codec",
     ]
     ctx.finish()
+
+
+def dfs_explore(run, c, max_preempt, budget, source="dfs"):
+    """Stateless bounded-preemption search over the schedules of the REAL code (independent of the model): every
+    run records, per scheduling decision, the index chosen, the number of enabled threads and the index of the
+    running thread; children re-run a prefix with one decision changed. A change away from a still-enabled running
+    thread costs one pre-emption; a change at a point where the running thread blocked is free."""
+    done = 0
+    seen = set()
+    frontier = [((), 0)]          # (prefix of choice indices, pre-emptions used)
+    while frontier and done < budget:
+        batch = frontier[: min(len(frontier), 3000, budget - done)]
+        frontier = frontier[len(batch):]
+        scns = [make_scn(c, f"dfs-{c['name']}-{done+i}", {"kind": "dfs", "prefix": list(pf)}) for i, (pf, _) in enumerate(batch)]
+        res = mtlib.run_scenarios(scns)
+        run.judge_all(scns, res, source)
+        done += len(batch)
+        for (pf, used), r in zip(batch, res):
+            ch = r.get("choices", [])
+            for i in range(len(pf), len(ch)):
+                idx, code = ch[i]
+                n, cur = code // 1000, code % 1000 - 1     # cur = -1: the running thread is not enabled here
+                for j in range(n):
+                    if j == idx:
+                        continue
+                    cost = 1 if (cur >= 0 and j != cur) else 0
+                    if used + cost > max_preempt:
+                        continue
+                    npf = tuple([x[0] for x in ch[:i]] + [j])
+                    if npf not in seen:
+                        seen.add(npf)
+                        frontier.append((npf, used + cost))
+    return done, len(frontier)
 
 
 def make_scn(c, sid, policy):
